@@ -1,4 +1,82 @@
-// Operation sequences on the composed Keyboard (filled in later).
-pub fn main(_args: &[String]) -> String {
-    String::new()
+// Operation sequences on the composed Keyboard (tools/seqgen.py).  Input: one sequence per line,
+// "<set> <layout index> <mode> | op op ..." with ops b0 b1 w<word> y<byte> e<key>:<state> c m<mode>.
+// Output: one line per sequence: per-operation results in the numeric encoding of coq/Seq.v, then
+// "|" and the final state.  An operation returning Ok(Some(event)) is followed by process_keyevent(event).
+use crate::gen_keys::{key_index, ALL_KEYS};
+use crate::{any_by_name, guard, Dbg, KSTATES, MODES};
+use pc_keyboard::*;
+
+const LAYOUTS: [&str; 10] = ["DVP104Key", "Dvorak104Key", "Us104Key", "Uk105Key", "Jis109Key", "Azerty", "Colemak", "De105Key", "No105Key", "FiSe105Key"];
+
+fn err_idx(e: Error) -> usize {
+    match e { Error::BadStartBit => 0, Error::BadStopBit => 1, Error::ParityError => 2, Error::UnknownKeyCode => 3, _ => 99 }
+}
+fn kstate_idx(s: KeyState) -> usize { match s { KeyState::Up => 0, KeyState::Down => 1, KeyState::SingleShot => 2 } }
+
+fn enc_dec(d: Option<DecodedKey>) -> String {
+    match d {
+        None => "5".to_string(),
+        Some(DecodedKey::Unicode(c)) => format!("6 {}", c as u32),
+        Some(DecodedKey::RawKey(k)) => format!("7 {}", key_index(k)),
+    }
+}
+
+fn run<S: ScancodeSet + std::fmt::Debug>(set: S, layout: usize, mode: usize, ops: &[&str]) -> String {
+    let mut k = Keyboard::new(set, Dbg(any_by_name(LAYOUTS[layout])), MODES[mode]);
+    let mut out: Vec<String> = Vec::new();
+    let mut dead = false;
+    for op in ops {
+        let r: Option<String> = (|| {
+            let sc = |k: &mut Keyboard<Dbg, S>, r: Result<Option<KeyEvent>, Error>| -> Option<String> {
+                Some(match r {
+                    Ok(None) => "1".to_string(),
+                    Err(e) => format!("3 {}", err_idx(e)),
+                    Ok(Some(ev)) => {
+                        let head = format!("2 {} {}", key_index(ev.code), kstate_idx(ev.state));
+                        let d = guard(|| k.process_keyevent(ev))?;
+                        format!("{} {}", head, enc_dec(d))
+                    }
+                })
+            };
+            let c = op.as_bytes()[0];
+            let arg = &op[1..];
+            match c {
+                b'b' => { let r = guard(|| k.add_bit(arg == "1"))?; sc(&mut k, r) }
+                b'w' => { let w: u16 = arg.parse().unwrap(); let r = guard(|| k.add_word(w))?; sc(&mut k, r) }
+                b'y' => { let b: u8 = arg.parse().unwrap(); let r = guard(|| k.add_byte(b))?; sc(&mut k, r) }
+                b'e' => {
+                    let (a, b) = arg.split_once(':').unwrap();
+                    let ev = KeyEvent::new(ALL_KEYS[a.parse::<usize>().unwrap()], KSTATES_BY_TAG[b.parse::<usize>().unwrap()]);
+                    let d = guard(|| k.process_keyevent(ev))?;
+                    Some(enc_dec(d))
+                }
+                b'c' => { guard(|| k.clear())?; Some("8".to_string()) }
+                _ => { let m: usize = arg.parse().unwrap(); guard(|| k.set_ctrl_handling(MODES[m]))?; Some("9".to_string()) }
+            }
+        })();
+        match r {
+            Some(s) => out.push(s),
+            None => { out.push("0".to_string()); dead = true; break; }
+        }
+    }
+    let fin = if dead { "0".to_string() } else { format!("{:?}", k) };
+    format!("{} | {}", out.join(" ; "), fin)
+}
+
+// KeyState by discriminant order (Up, Down, SingleShot)
+const KSTATES_BY_TAG: [KeyState; 3] = [KeyState::Up, KeyState::Down, KeyState::SingleShot];
+
+pub fn main(args: &[String]) -> String {
+    let _ = KSTATES;
+    let text = std::fs::read_to_string(&args[0]).expect("cannot read the sequence file");
+    let mut out = String::new();
+    for line in text.lines() {
+        let (head, ops) = line.split_once('|').unwrap();
+        let h: Vec<usize> = head.split_whitespace().map(|x| x.parse().unwrap()).collect();
+        let ops: Vec<&str> = ops.split_whitespace().collect();
+        let r = if h[0] == 1 { run(ScancodeSet1::new(), h[1], h[2], &ops) } else { run(ScancodeSet2::new(), h[1], h[2], &ops) };
+        out.push_str(&r);
+        out.push('\n');
+    }
+    out
 }
